@@ -38,8 +38,10 @@ var (
 	switchInitRe       = regexp.MustCompile(`\bswitch([ \t]+)([^;{}%=]+);([ \t\n]*(?:\{|%\}))`)
 	mapNoKeyRe         = regexp.MustCompile(`\bmap[ \t]*\[[ \t]*\]`)
 	containsRe         = regexp.MustCompile(`\b(not[ \t]+)?contains\b`)
-	couldBeContainerRe = regexp.MustCompile("[\\[\"`']|\\b(map|string|macro|render|itea|html|css|js|json|markdown|func|chan|interface|struct|import|extends)\\b")
+	couldBeContainerRe = regexp.MustCompile("[\\[\"`']|\\b(map|string|macro|render|itea|html|css|js|json|markdown|func|chan|interface|struct|import)\\b")
 	juxtaposedRe       = regexp.MustCompile(`\}[ \t\n]*\{`)
+	literalKeyRe       = regexp.MustCompile(`\{[^{}]*\}([ \t\n]*:)`)
+	extendsStmtRe      = regexp.MustCompile(`\{%[ \t\n]*extends\b[^%]*%\}`)
 	elseRe             = regexp.MustCompile(`\{%[ \t\n]*else[ \t\n]*%\}|\belse\b`)
 )
 
@@ -84,17 +86,19 @@ var findingClasses = []findingClass{
 	}},
 	{"contains-on-non-container-panics", func(src []byte) ([]byte, bool) {
 		// `contains` in a source with nothing that could make a string, slice, array or map value
-		if !containsRe.Match(src) || couldBeContainerRe.Match(src) {
+		if !containsRe.Match(src) || couldBeContainerRe.Match(extendsStmtRe.ReplaceAll(src, nil)) {
 			return nil, false
 		}
 		return containsRe.ReplaceAll(src, []byte("==")), true
 	}},
-	{"composite-literal-juxtaposed-panics", func(src []byte) ([]byte, bool) {
-		// `{…} {…}`: a composite literal without type directly followed by another brace; with a comma between them
-		if !juxtaposedRe.Match(src) {
+	{"composite-literal-without-type-panics", func(src []byte) ([]byte, bool) {
+		// a composite literal without type where no type is implied: `{…} {…}` (a missing comma: the first literal is
+		// taken as the type of the second) or `{…}: v` as the index of a slice or array element; neutralised by the
+		// comma / by the index 0
+		if !juxtaposedRe.Match(src) && !literalKeyRe.Match(src) {
 			return nil, false
 		}
-		return juxtaposedRe.ReplaceAll(src, []byte("},{")), true
+		return literalKeyRe.ReplaceAll(juxtaposedRe.ReplaceAll(src, []byte("},{")), []byte("0$1")), true
 	}},
 	{"duplicate-else-panics", func(src []byte) ([]byte, bool) {
 		locs := elseRe.FindAllIndex(src, -1)
